@@ -759,7 +759,8 @@ class Model:
         if toks.count("?") != 1:
             return "fallible calls other than next_element()?"
         for w in ("unwrap", "expect", "extend", "extend_from_slice", "break", "return", "panic", "unreachable", "insert",
-                  "truncate", "pop", "clear", "remove", "unsafe", "take", "skip", "size_hint", "capacity", "is_full", "len"):
+                  "truncate", "pop", "clear", "remove", "unsafe", "take", "skip", "size_hint", "capacity", "is_full", "len",
+                  "+=", "-=", "*=", "+", "*", "/", "<<", ">>", "as", "loop", "for"):
             if w in toks:
                 return f"`{w}` in the loop"
         if not (re.search(r"push \(\s*\w+\s*\) \. ok \(\)", body) or re.search(r"let _ = [\w .]*push \(\s*\w+\s*\)", body)):
